@@ -237,7 +237,11 @@ func c20Events(r *vg.Rand) []abci.Event {
 
 func c20Time(h int64) time.Time { return time.Unix(1700000000+h*7, 0).UTC() }
 
-func c20NewChain(idx int, r *vg.Rand) *c20Chain {
+func c20NewChain(idx int, r *vg.Rand) *c20Chain { return c20NewChainOpt(idx, r, false) }
+
+// noAppHash: the application does not commit to its state - every header carries an EMPTY AppHash
+// (legal: Header.ValidateBasic does not constrain it), so no query answer can be proven
+func c20NewChainOpt(idx int, r *vg.Rand, noAppHash bool) *c20Chain {
 	c := &c20Chain{idx: idx, chainID: fmt.Sprintf("c20-chain-%d", idx), n: int64(4 + r.Intn(2))}
 	nv := 1 + r.Intn(3)
 	var vs []*types.Validator
@@ -266,6 +270,12 @@ func c20NewChain(idx int, r *vg.Rand) *c20Chain {
 		app.stores[st] = map[string][]byte{"k": val(1+i, 0), "a+b": val(1+i, 1), "a b": val(1+i, 2)}
 	}
 	c.apps = append(c.apps, app.clone())
+	appHash := func(a *c20App) []byte {
+		if noAppHash {
+			return nil
+		}
+		return a.root()
+	}
 	params := *types.DefaultConsensusParams()
 	if r.Bool() {
 		params.Block.MaxGas = int64(r.Intn(1 << 30))
@@ -297,7 +307,7 @@ func c20NewChain(idx int, r *vg.Rand) *c20Chain {
 		}
 		b := types.MakeBlock(h, txs, lastCommit, nil)
 		b.Header.Populate(tmversion.Consensus{Block: version.BlockProtocol, App: 1}, c.chainID, c20Time(h), lastID,
-			c.vals.Hash(), c.vals.Hash(), types.HashConsensusParams(params), c.apps[h-1].root(), lastResults,
+			c.vals.Hash(), c.vals.Hash(), types.HashConsensusParams(params), appHash(c.apps[h-1]), lastResults,
 			c.vals.Validators[int(h)%nv].Address)
 		ps := b.MakePartSet(types.BlockPartSizeBytes)
 		id := types.BlockID{Hash: b.Hash(), PartSetHeader: ps.Header()}
@@ -1480,6 +1490,23 @@ func c20RunQuery(t *testing.T, cs *vg.Cases, id int, c *c20Chain, label, kind, p
 	if view.ProofOps != nil {
 		nops = len(view.ProofOps.Ops)
 	}
+	// the ValueOps of the answer, for the model of ProofOperators.Verify / ValueOp.Run
+	vops := "None"
+	if kpErr == nil && view.ProofOps != nil && nops > 0 {
+		var ops []string
+		for _, pop := range view.ProofOps.Ops {
+			o, err := merkle.ValueOpDecoder(pop)
+			if err != nil {
+				ops = nil
+				break
+			}
+			vo := o.(merkle.ValueOp)
+			ops = append(ops, vg.Tup(vg.Hx(vo.GetKey()), c20ProofTerm(*vo.Proof)))
+		}
+		if len(ops) == nops {
+			vops = vg.Opt(true, vg.Tup(vg.L(ops), vg.Hx([]byte(kp.String()))))
+		}
+	}
 	// ground truth straight from the generated application state: no proof, no key path involved
 	stateVal, stateDescr := "None", "unknown"
 	if m := c20StoreRE.FindStringSubmatch(path); len(m) == 2 && view.Height >= 0 && view.Height <= c.n {
@@ -1494,7 +1521,7 @@ func c20RunQuery(t *testing.T, cs *vg.Cases, id int, c *c20Chain, label, kind, p
 	}
 	cs.Add(id, label, kind != "honest",
 		vg.App("CQuery", lc.term(false), vg.B(fn != nil), vg.Z(int64(view.Code)), vg.Hx(view.Key), vg.Z(int64(nops)), vg.Z(view.Height),
-			vg.Opt(view.Value != nil, vg.Hx(view.Value)), vg.B(kpErr == nil), vg.L(vtab), vg.L(atab), stateVal,
+			vg.Opt(view.Value != nil, vg.Hx(view.Value)), vg.B(kpErr == nil), vg.L(vtab), vg.L(atab), stateVal, vops,
 			vg.B(run.relayed), vg.L(run.calls), vg.B(honest)),
 		fmt.Sprintf("chain#%d(n=%d) ABCIQuery(path %q, key %q at height %d, KeyPathFn=%s), falsification: %s; answer: code=%d key=%q value=%x height=%d ops=%d (op keys %q); the application state at height %d holds for that store and key: %s; relayed=%v err=%q",
 			c.idx, c.n, path, key, h, map[bool]string{true: fnName, false: "none"}[fn != nil], kind, view.Code, view.Key, view.Value, view.Height, nops, c20OpKeys(view),
@@ -1504,7 +1531,12 @@ func c20RunQuery(t *testing.T, cs *vg.Cases, id int, c *c20Chain, label, kind, p
 func c20OpKeys(q *abci.ResponseQuery) (out []string) {
 	if q.ProofOps != nil {
 		for _, op := range q.ProofOps.Ops {
-			out = append(out, string(op.Key))
+			d := string(op.Key)
+			if o, err := merkle.ValueOpDecoder(op); err == nil { // the inner Merkle proof of a ValueOp
+				p := o.(merkle.ValueOp).Proof
+				d += fmt.Sprintf("{total %d index %d aunts %d}", p.Total, p.Index, len(p.Aunts))
+			}
+			out = append(out, d)
 		}
 	}
 	return
@@ -1560,6 +1592,75 @@ func c20SpecialQueryCases(t *testing.T, cs *vg.Cases, c *c20Chain, r *vg.Rand) {
 		}
 		c20RunQuery(t, cs, id, c, fmt.Sprintf("query-special/%s/mode%d", q.kind, q.mode), kind, "/store/"+q.store+"/key", q.key, h, res,
 			c20KPFn(q.mode), names[q.mode], q.kind == "honest")
+	}
+}
+
+// a ValueOp for <key, value> whose inner proof has the right leaf hash and the given (total, index, aunts)
+func c20FakeOp(key, value []byte, total, index int64, aunts [][]byte) tmcrypto.ProofOp {
+	leaf := c20Sum(append([]byte{0}, append(c20Enc(key), c20Enc(c20Sum(value))...)...))
+	return merkle.NewValueOp(key, &merkle.Proof{Total: total, Index: index, LeafHash: leaf, Aunts: aunts}).ProofOp()
+}
+
+// Chains whose headers carry an EMPTY AppHash, and ValueOps from which no root hash can be computed
+// (index >= total, total 0, too many / too few aunts): merkle computeHashFromAunts gives nil for them,
+// and nil equals the empty AppHash under bytes.Equal (F62).  The lying server answers with a value
+// of its choice; nothing may be relayed on such a chain (no answer can be proven).
+func c20EmptyAppHashCases(t *testing.T, cs *vg.Cases, c, ce *c20Chain, r *vg.Rand) {
+	kinds := []string{"honest-unprovable", "uncomputable-total-0", "uncomputable-index-ge-total", "uncomputable-extra-aunt",
+		"uncomputable-missing-aunt", "uncomputable-last-op-only", "uncomputable-last-op-only-genuine-value",
+		"uncomputable-on-nonempty-apphash", "uncomputable-single-op"}
+	for k, kind := range kinds {
+		id := cs.NextID()
+		if !cs.Want(id) {
+			continue
+		}
+		rr := r.Fork(uint64(9000 + k))
+		ch := ce
+		if kind == "uncomputable-on-nonempty-apphash" {
+			ch = c
+		}
+		h := 1 + rr.Int63n(ch.n-1)
+		store := []string{"acc", "bank", c20SpecialStore}[rr.Intn(3)]
+		keys := c20SortedKeys(ch.apps[h].stores[store])
+		key := keys[rr.Intn(len(keys))]
+		res := c20Wire(ch.honestQuery(h, store, key))
+		q := &res.Response
+		lie := append([]byte("forged "), rr.Bytes(1+rr.Intn(4))...)
+		aunt := c20Sum([]byte("aunt"))
+		// the last operator is run on what the one before "computed": nil
+		last := func(total, index int64, aunts [][]byte) tmcrypto.ProofOp {
+			return c20FakeOp([]byte(store), nil, total, index, aunts)
+		}
+		switch kind {
+		case "uncomputable-total-0":
+			q.Value = lie
+			q.ProofOps.Ops = []tmcrypto.ProofOp{c20FakeOp([]byte(key), lie, 0, 0, nil), last(0, 0, nil)}
+		case "uncomputable-index-ge-total":
+			q.Value = lie
+			q.ProofOps.Ops = []tmcrypto.ProofOp{c20FakeOp([]byte(key), lie, 1, 1+int64(rr.Intn(9)), nil), last(3, 3, [][]byte{aunt, aunt})}
+		case "uncomputable-extra-aunt":
+			q.Value = lie
+			q.ProofOps.Ops = []tmcrypto.ProofOp{c20FakeOp([]byte(key), lie, 1, 0, [][]byte{aunt}), last(2, 1, [][]byte{aunt, aunt})}
+		case "uncomputable-missing-aunt":
+			q.Value = lie
+			q.ProofOps.Ops = []tmcrypto.ProofOp{c20FakeOp([]byte(key), lie, 4, 2, [][]byte{aunt}), last(2, 0, nil)}
+		case "uncomputable-last-op-only": // the first operator computes a root all right (a one-leaf "store"); only the last has none
+			q.Value = lie
+			op0 := c20FakeOp([]byte(key), lie, 1, 0, nil)
+			sroot := c20Sum(append([]byte{0}, append(c20Enc([]byte(key)), c20Enc(c20Sum(lie))...)...))
+			q.ProofOps.Ops = []tmcrypto.ProofOp{op0, c20FakeOp([]byte(store), sroot, 1, 1, nil)}
+		case "uncomputable-last-op-only-genuine-value": // the true value, with its genuine store proof, "proven" by nothing at the top
+			sroot := merkle.HashFromByteSlices(func() [][]byte { _, l := ch.apps[h].storeLeaves(store); return l }())
+			q.ProofOps.Ops[1] = c20FakeOp([]byte(store), sroot, 2, 2, [][]byte{aunt})
+		case "uncomputable-on-nonempty-apphash":
+			q.Value = lie
+			q.ProofOps.Ops = []tmcrypto.ProofOp{c20FakeOp([]byte(key), lie, 0, 0, nil), last(0, 0, nil)}
+		case "uncomputable-single-op": // one operator only: the key path is not consumed
+			q.Value = lie
+			q.ProofOps.Ops = []tmcrypto.ProofOp{c20FakeOp([]byte(key), lie, 0, 0, nil)}
+		}
+		c20RunQuery(t, cs, id, ch, "query-emptyapphash/"+kind, kind+fmt.Sprintf(" (AppHash of header %d = %X)", h+1, []byte(ch.blocks[h].AppHash)),
+			"/store/"+store+"/key", key, h, res, c20KPFn(0), "default (url,url)", false)
 	}
 }
 
@@ -1728,7 +1829,8 @@ func c20ParamsCases(t *testing.T, cs *vg.Cases, c *c20Chain, r *vg.Rand) {
 var c20ResultsKinds = []string{"honest", "honest", "honest-with-txs", "honest-latest-minus-1", "honest-of-latest", "code-forged",
 	"data-forged", "gas-wanted-forged", "gas-used-forged", "log-forged", "tx-events-forged", "begin-events-forged",
 	"end-events-forged", "result-dropped", "result-added", "results-swapped", "height-label-forged", "height-label-zero",
-	"other-height-genuine", "validator-updates-forged", "codespace-forged", "all-results-emptied"}
+	"other-height-genuine", "validator-updates-forged", "codespace-forged", "all-results-emptied",
+	"honest-empty-after-txs", "replayed-earlier-results"}
 
 func c20ResultsCases(t *testing.T, cs *vg.Cases, c *c20Chain, r *vg.Rand) {
 	for k, kind := range c20ResultsKinds {
@@ -1742,7 +1844,10 @@ func c20ResultsCases(t *testing.T, cs *vg.Cases, c *c20Chain, r *vg.Rand) {
 			h = 2
 		}
 		var hp *int64 = &h
-		honest := kind == "honest" || kind == "honest-with-txs" || kind == "honest-latest-minus-1"
+		honest := kind == "honest" || kind == "honest-with-txs" || kind == "honest-latest-minus-1" || kind == "honest-empty-after-txs"
+		if kind == "honest-empty-after-txs" || kind == "replayed-earlier-results" {
+			h = 3 // block 3 has no transactions, block 2 at least three: header 4 must commit to the EMPTY results
+		}
 		if kind == "honest-latest-minus-1" {
 			hp = nil
 			h = c.n - 1
@@ -1811,6 +1916,8 @@ func c20ResultsCases(t *testing.T, cs *vg.Cases, c *c20Chain, r *vg.Rand) {
 			}
 		case "all-results-emptied":
 			res.TxsResults = nil
+		case "replayed-earlier-results": // the results of the last block that had transactions, labelled with this height
+			res.TxsResults = c20Wire(c.honestResults(2)).TxsResults
 		}
 		lc := c20NewLC(c)
 		srv := &c20Server{results: res, latest: c.n}
@@ -1884,6 +1991,7 @@ func TestVerifC20Client(t *testing.T) {
 		c20QueryCases(t, cs, c, r.Fork(7))
 		c20SpecialQueryCases(t, cs, c, r.Fork(12))
 		c20KeyPathCases(t, cs, k, r.Fork(13))
+		c20EmptyAppHashCases(t, cs, c, c20NewChainOpt(k, r.Fork(1), true), r.Fork(14))
 		c20ParamsCases(t, cs, c, r.Fork(8))
 		c20ResultsCases(t, cs, c, r.Fork(9))
 		c20ServedCases(t, cs, c, r.Fork(10))
